@@ -142,6 +142,14 @@ func setECS(
 				edns.SourceScope = scope
 				edns.Address = ip
 
+				// Remove any other ECS options, so that a subnet supplied by
+				// the client in a duplicate option is never sent further.
+				opt.Option = slices.DeleteFunc(opt.Option, func(o dns.EDNS0) (ok bool) {
+					other, ok := o.(*dns.EDNS0_SUBNET)
+
+					return ok && other != edns
+				})
+
 				return nil
 			}
 		}
